@@ -175,6 +175,9 @@ type codeStore struct { // {{{
 	codes []uint32
 	lines []int
 	pc    int
+	// dataEnd is the pc just behind the most recent word that is not an instruction (the batch
+	// number that follows an extended SETLIST); 0 when there is none
+	dataEnd int
 }
 
 func (cd *codeStore) Add(inst uint32, line int) {
@@ -186,6 +189,12 @@ func (cd *codeStore) Add(inst uint32, line int) {
 		cd.lines[cd.pc] = line
 	}
 	cd.pc++
+}
+
+// AddData appends a word that is an operand of the preceding instruction, not an instruction.
+func (cd *codeStore) AddData(word uint32, line int) {
+	cd.Add(word, line)
+	cd.dataEnd = cd.pc
 }
 
 func (cd *codeStore) AddABC(op int, a int, b int, c int, line int) {
@@ -286,7 +295,8 @@ func (cd *codeStore) LastPC() int {
 }
 
 func (cd *codeStore) Last() uint32 {
-	if cd.pc == 0 {
+	if cd.pc == 0 || cd.pc == cd.dataEnd {
+		// no instruction yet, or the last word is data: nothing a caller may inspect or pop
 		return opInvalidInstruction
 	}
 	return cd.codes[cd.pc-1]
@@ -415,7 +425,7 @@ type funcContext struct {
 func newFuncContext(sourcename string, parent *funcContext) *funcContext {
 	fc := &funcContext{
 		Proto:           newFunctionProto(sourcename),
-		Code:            &codeStore{make([]uint32, 0, 1024), make([]int, 0, 1024), 0},
+		Code:            &codeStore{codes: make([]uint32, 0, 1024), lines: make([]int, 0, 1024)},
 		Parent:          parent,
 		Upvalues:        newVarNamePool(0),
 		Block:           newCodeBlock(newVarNamePool(0), labelNoJump, nil, nil, 0),
@@ -1449,7 +1459,7 @@ func compileTableExpr(context *funcContext, reg int, ex *ast.TableExpr, ec *expc
 			}
 			code.AddABC(OP_SETLIST, tablereg, b, c, sline(line))
 			if c == 0 {
-				code.Add(uint32(batch), sline(line))
+				code.AddData(uint32(batch), sline(line))
 			}
 		}
 	}
